@@ -9,6 +9,8 @@ struct randomx_cache;
 
 namespace model {
 
+extern bool g_in_model; // a reference-model computation is in flight (for crash attribution)
+
 struct Digest { uint8_t b[32]; bool operator==(const Digest &o) const; };
 
 struct Limits { int max_caches = 8; int max_datasets = 2; bool allow_full_mem = true; bool double_noise = true; };
